@@ -17,9 +17,9 @@ checks = {
    note="the hash function is trusted; proof-of-work parts in the replay are 49/50 plasma so that nonces are mined quickly",
    technique="TLA+ specs PowTrace.tla (BigNat) / Plasma.tla + TLC; trace validation of the real PoW check; replay of boundary claims"),
  "C15": dict(cat="model_checking", design="§4 C15",
-   text="PeerSession.tla gives every (message code, payload class) pair its required reaction - bounded reply, silent, drop of the offender only - for two peers before and after the handshake; TLC enumerates all message sequences up to length 3. Every transition is replayed in a child process against a real ProtocolManager over p2p.MsgPipe on a node with a 600-momentum chain: reply sizes against the limits, session end, a plain request answered afterwards, the other peer still served, the process alive (background goroutines included).",
-   note="payloads are representatives per class plus seeded random bytes; rlpx frames and discovery packets are not driven through sockets",
-   technique="TLA+ spec PeerSession.tla + TLC; replay of every transition against the real protocol handler in a child process"),
+   text="PeerSession.tla gives every (message code, payload class) pair its required reaction - bounded reply, silent, drop of the offender only - for two peers before and after the handshake; TLC enumerates all message sequences up to length 3. Every transition is replayed in a child process against a real ProtocolManager over p2p.MsgPipe on a node with a 600-momentum chain: reply sizes against the limits, session end, a plain request answered afterwards, the other peer still served, the process alive (background goroutines included). WireSession.tla is the layer below: one TCP connection through the stages tcp / enc / ready / closed and the discovery datagrams, every input (handshake variants, disconnect payloads, base and sub-protocol codes, corrupted / truncated / swapped / replayed / oversize-announcing encrypted frames, malformed, unsigned, expired and unsolicited datagrams) with its required stage and reply; every transition is replayed over loopback TCP/UDP against a real p2p.Server and discovery listener in child processes, with a well-behaved remote served after each behaviour and the allocation around each input measured against the 10 MiB message limit.",
+   note="payloads are representatives per class plus seeded random bytes; frames are corrupted from the outside (the lab does not forge MACs), so a frame with a valid MAC and an undecodable message code is not produced",
+   technique="TLA+ specs PeerSession.tla and WireSession.tla + TLC; replay of every transition against the real protocol handler, p2p server and discovery listener in child processes"),
  "C17": dict(cat="model_checking", design="§4 C17",
    text="Spork.tla: create / activate (designated key, minimum delay, once) / tick / call with real heights; CodeAvail (cumulative method tables by priority) and PropAvail (the feature's own spork); TLC checks GateByHeight and ActivationRules and refutes CodeEqualsProperty (recorded finding). Behaviours ending in a call or in an attempt by a stranger are replayed on a real producer for all three sporks in every creation/activation order at heights just below, at and above enforcement, then adopted by a follower; a child process shows that a node not implementing an enforced spork stops exactly at the enforcement height.",
    note="availability probed through send-time validation of one representative call per spork",
@@ -106,5 +106,5 @@ def main():
         else:
             m["not_applicable"].append({"property_id":pid,"reason":na.get(pid,"check not built yet (work in progress; the specification family of DESIGN.md §2.1 is being implemented in the order of §8)")})
     json.dump(m,open("/verif/MANIFEST.json","w"),indent=1)
-HOOKS=["1d8062c"]
+HOOKS=["1d8062c","4e7aafd"]
 main()
